@@ -545,6 +545,143 @@ theorem construct_after_commit (classes : List ClassSpec) (fuel cls : Nat) (hist
     constructObj classes fuel cls hist s' = .ok (normalize classes fuel cls hist obj) :=
   construct_of_holds classes fuel cls hist obj s' hwf (commit_holds classes fuel cls hist obj s s' hsafe h)
 
+/-! ### every object that `construct` returns is well-formed and already normalised -/
+
+theorem mapM_length {α β : Type} (f : α → Except Err β) (l : List α) (vs : List β) (h : l.mapM f = .ok vs) :
+    vs.length = l.length := by
+  induction l generalizing vs with
+  | nil => simp only [List.mapM_nil, pure, Except.pure, Except.ok.injEq] at h; subst h; rfl
+  | cons a l ih =>
+    rw [List.mapM_cons] at h
+    simp only [bind, Except.bind] at h
+    cases ha : f a with
+    | error e => rw [ha] at h; cases h
+    | ok b =>
+      rw [ha] at h; simp only at h
+      cases hl : l.mapM f with
+      | error e => rw [hl] at h; cases h
+      | ok bs =>
+        rw [hl] at h
+        simp only [pure, Except.pure, Except.ok.injEq] at h
+        subst h
+        simp [ih bs hl]
+
+theorem map_zipIdx_id (G : Nat → Val → Val) (os : List Val) :
+    ∀ (k : Nat), (∀ oi ∈ os.zipIdx k, G oi.2 oi.1 = oi.1) → (os.zipIdx k).map (fun oi => G oi.2 oi.1) = os := by
+  induction os with
+  | nil => intro k _; simp
+  | cons o os ih =>
+    intro k h
+    have h1 := h (o, k) (by simp [List.zipIdx_cons])
+    have h2 := ih (k + 1) (fun oi hoi => h oi (by simp [List.zipIdx_cons, hoi]))
+    simp only [List.zipIdx_cons, List.map_cons, h2]
+    simp only at h1
+    rw [h1]
+
+/-- **what `construct` returns is well-formed and a fixed point of `normalize`**: the hypotheses of
+`construct_after_commit` are met by every object that was loaded -/
+theorem construct_wf (classes : List ClassSpec) (fuel : Nat) :
+    ∀ (cls : Nat) (hist : List Nat) (s : Sections) (obj : Val),
+      constructObj classes fuel cls hist s = .ok obj →
+      WF classes fuel cls hist obj ∧ normalize classes fuel cls hist obj = obj := by
+  induction fuel with
+  | zero => intro cls hist s obj h; simp [constructObj] at h
+  | succ fuel ih =>
+    intro cls hist s obj h
+    simp only [constructObj] at h
+    cases hc : classes[cls]? with
+    | none => simp [hc] at h
+    | some c =>
+      simp only [hc, bind, Except.bind] at h
+      cases hm : c.links.mapM (pullLink (fun ccls h => constructObj classes fuel ccls h s) hist s) with
+      | error e => rw [hm] at h; cases h
+      | ok vals =>
+        rw [hm] at h
+        simp only [pure, Except.pure, Except.ok.injEq] at h
+        subst h
+        have hlen := mapM_length _ c.links vals hm
+        have hz := mapM_zip _ c.links vals hm
+        have key : ∀ lv ∈ c.links.zip vals,
+            linkWF (WF classes fuel) hist lv ∧ normLink (normalize classes fuel) hist lv = lv.2 := by
+          intro lv hlv
+          have hp := hz lv hlv
+          obtain ⟨⟨a, k⟩, v⟩ := lv
+          cases k with
+          | hist n =>
+            simp only [pullLink] at hp
+            cases hn : hist[n]? with
+            | none => simp [hn] at hp
+            | some m =>
+              simp only [hn, pure, Except.pure, Except.ok.injEq] at hp
+              subst hp
+              have hlt : n < hist.length := by
+                rcases List.getElem?_eq_some_iff.mp hn with ⟨h', _⟩; exact h'
+              exact ⟨by simpa [linkWF] using hlt, by simp [normLink, hn]⟩
+          | skip =>
+            simp only [pullLink, pure, Except.pure, Except.ok.injEq] at hp
+            subst hp
+            exact ⟨by simp [linkWF], by simp [normLink]⟩
+          | plain path acts names => exact ⟨by simp [linkWF], by simp [normLink]⟩
+          | objs path ccls defaults childNames guards acts names =>
+            simp only [pullLink] at hp
+            cases hg : (resolve hist path).bind (fun p => getAt p s.root) with
+            | none => simp [hg] at hp
+            | some x =>
+              cases x with
+              | list l =>
+                simp only [hg, bind, Except.bind] at hp
+                cases hk : (List.range l.length).mapM (fun i => constructObj classes fuel ccls (hist ++ [i]) s) with
+                | error e => rw [hk] at hp; cases hp
+                | ok os =>
+                  rw [hk] at hp
+                  simp only [pure, Except.pure, Except.ok.injEq] at hp
+                  subst hp
+                  rw [List.range_eq_range'] at hk
+                  have hget := mapM_range'_get _ 0 l.length os hk
+                  have hkid : ∀ oi ∈ os.zipIdx, WF classes fuel ccls (hist ++ [oi.2]) oi.1 ∧
+                      normalize classes fuel ccls (hist ++ [oi.2]) oi.1 = oi.1 := by
+                    intro oi hoi
+                    obtain ⟨o, i⟩ := oi
+                    obtain ⟨hi, ho⟩ := List.mem_zipIdx' hoi
+                    have := hget i o (by rw [ho]; exact List.getElem?_eq_getElem hi)
+                    simp only [Nat.zero_add] at this
+                    exact ih ccls (hist ++ [i]) s o this
+                  refine ⟨by simp only [linkWF]; exact fun oi hoi => (hkid oi hoi).1, ?_⟩
+                  simp only [normLink]
+                  congr 1
+                  exact map_zipIdx_id (fun i o => normalize classes fuel ccls (hist ++ [i]) o) os 0
+                    (fun oi hoi => (hkid oi hoi).2)
+              | _ => simp [hg] at hp
+        refine ⟨?_, ?_⟩
+        · simp only [WF, hc]
+          exact ⟨hlen, fun lv hlv => (key lv hlv).1⟩
+        · simp only [normalize, hc]
+          congr 1
+          have : ∀ (ls : List (Nat × LinkKind)) (vs : List Val), ls.length = vs.length →
+              (∀ lv ∈ ls.zip vs, normLink (normalize classes fuel) hist lv = lv.2) →
+              (ls.zip vs).map (normLink (normalize classes fuel) hist) = vs := by
+            intro ls
+            induction ls with
+            | nil => intro vs hl _; cases vs <;> simp at hl ⊢
+            | cons x ls ihl =>
+              intro vs hl hh
+              cases vs with
+              | nil => simp at hl
+              | cons v vs =>
+                simp only [List.zip_cons_cons, List.map_cons]
+                rw [hh (x, v) (by simp), ihl vs (by simpa using hl) (fun lv hlv => hh lv (by simp [hlv]))]
+          exact this c.links vals hlen.symm (fun lv hlv => (key lv hlv).2)
+
+/-- **load, save, load**: an object that was constructed (from any sections `s0`), committed (onto any sections `s`) and
+constructed again is the same object -/
+theorem construct_commit_construct (classes : List ClassSpec) (fuel cls : Nat) (hist : List Nat) (s0 s s' : Sections) (obj : Val)
+    (hsafe : tableSafe classes fuel cls hist.length = true)
+    (hc : constructObj classes fuel cls hist s0 = .ok obj)
+    (h : commitObj classes fuel cls hist obj s = .ok s') :
+    constructObj classes fuel cls hist s' = .ok obj := by
+  obtain ⟨hwf, hn⟩ := construct_wf classes fuel cls hist s0 obj hc
+  rw [construct_after_commit classes fuel cls hist obj s s' hsafe hwf h, hn]
+
 /-! non-vacuity: a two-level demo table (a manager with a counted list of children) -/
 def demo3Classes : List ClassSpec :=
   [{ name := 0, links := [
